@@ -372,6 +372,8 @@ type E struct {
 	op    byte // 'a' single, 'i' in-list, 't' multi-word text, 'j' in-list of multi-word texts, '!', '&', '|'
 	atoms []int
 	items [][]int // 'j': the words of every item
+	val   string  // 'a': an explicit keyword value of field fk (a key of wsTokens, or an upper-case spelling) denoting atoms[0]
+	rng   bool    // 'a' with val or a cased deco: written as the point range [X, X] instead of the literal X
 	deco  string  // a word rune of another Unicode class (No, Nl, Lm, non-ASCII Nd) written inside every value: v<deco><n>
 	sep   string  // 't': what stands between the words (default one space); any non-word bytes, also invalid UTF-8
 	l, r  *E
@@ -536,6 +538,23 @@ func (e *E) render(st style, r *vh.RNG, lvl int) string {
 			f = "ft"
 		}
 		v := fmt.Sprintf("v%s%d", e.deco, e.atoms[0])
+		if e.val != "" || (e.rng && e.deco != "") {
+			// an explicit value (outer whitespace, upper case) or a cased word, as a quoted literal or as the point range [X, X]
+			f = "fk"
+			x := `"` + e.val + `"`
+			if e.val == "" {
+				f, x = "ft", `"`+v+`"`
+			}
+			switch {
+			case e.rng && st.legacy:
+				s = f + ":[" + x + " TO " + x + "]"
+			case e.rng:
+				s = f + ":[" + x + ", " + x + "]"
+			default:
+				s = f + ":" + x
+			}
+			break
+		}
 		pat := e.deco == "" && (st.wild || (r != nil && st.fancy && r.Chance(1, 3)))
 		if e.deco != "" && !st.legacy {
 			v = `"` + v + `"` // such runes are not SeqQL token runes: the value has to be quoted
@@ -549,6 +568,9 @@ func (e *E) render(st style, r *vh.RNG, lvl int) string {
 			switch form {
 			case 0, 2:
 				v += "*"
+				if f == "fk" {
+					f = "fp" // fk also holds tokens that extend v<n> by outer whitespace; a prefix pattern would select them too
+				}
 			default:
 				if st.legacy {
 					v = "[" + v + " TO " + v + "]"
@@ -654,7 +676,8 @@ func (c *ctx) caseTruth(which string, k int, want string, q string, flags string
 	if flags == "" {
 		flags = "-"
 	}
-	cs := flags == "cs" // conf.CaseSensitive for this case (the index side lower-cases with unicode.ToLower unless set)
+	noleaf := strings.HasSuffix(flags, "/noleaf") // the leaves are not single atoms: only the search over the fake index is compared
+	cs := strings.HasPrefix(flags, "cs")          // conf.CaseSensitive for this case (the index side lower-cases with unicode.ToLower unless set)
 	replay := fmt.Sprintf("truth %s %d %s %s %s", which, k, want, hexs(q), flags)
 	beginCase(replay)
 	defer endCase()
@@ -673,7 +696,13 @@ func (c *ctx) caseTruth(which string, k int, want string, q string, flags string
 	}
 	var got string
 	var err error
-	p, site, msg := guarded(func() { got, err = realTable(root, k, leafID) })
+	p, site, msg := guarded(func() {
+		if noleaf {
+			got = want
+			return
+		}
+		got, err = realTable(root, k, leafID)
+	})
 	if p {
 		c.violate(site, "parser-panics", "evaluating the parsed tree panicked: "+msg, replay)
 		return
@@ -707,6 +736,42 @@ func (c *ctx) caseTruth(which string, k int, want string, q string, flags string
 			}
 			c.violate("frac/processor/search.go:IndexSearch", "meaning-changed", fmt.Sprintf("searching with %q (order %v) returns documents %s, the written expression denotes %s", q, order, got2, want), replay)
 			return
+		}
+	}
+}
+
+// runRanges: wide, half-open and exclusive ranges against the reference meaning (refRange) over the fake index.
+func (c *ctx) runRanges() {
+	type rc struct {
+		lo, hi       string
+		incLo, incHi bool
+	}
+	cases := []rc{{" v0", "v1", true, true}, {"*", " v1", true, true}, {"v0", "v0 ", false, false}, {"v0", "v0 ", true, false}, {" 5", "5", true, true},
+		{"5 ", "*", true, true}, {"5", "5", true, true}, {"4", "6", false, false}, {" 4", "6", true, true}, {"V0", "V2", true, true}, {"vÜ0", "vÜ2", true, true},
+		{"Vé0", "vЖ9", true, false}, {"\tv0\t", " v1", true, true}, {"*", "*", true, true}, {"v1 ", "v2", false, true}}
+	for _, x := range cases {
+		for _, cs := range []bool{false, true} {
+			for _, field := range []string{"fk", "ft"} {
+				wr := func(b string) string {
+					if b == "*" {
+						return "*"
+					}
+					return `"` + b + `"`
+				}
+				lb, rb := "(", ")"
+				if x.incLo {
+					lb = "["
+				}
+				if x.incHi {
+					rb = "]"
+				}
+				q := field + ":" + lb + wr(x.lo) + ", " + wr(x.hi) + rb
+				flags := ""
+				if cs {
+					flags = "cs"
+				}
+				c.caseTruth("seqql", 3, refRange(3, cs, field, x.lo, x.hi, x.incLo, x.incHi), q, flags+"/noleaf", "wide-ranges")
+			}
 		}
 	}
 }
@@ -769,6 +834,39 @@ func (c *ctx) runTruth(r *vh.RNG) {
 			}
 		}
 	}
+	// directed: range bounds and literals keep their bytes (outer whitespace of a quoted value is significant, a bound
+	// that is a number only after trimming is a string) and follow the field's case rule like a literal:
+	// the point range [X, X] selects what the literal X selects
+	for w, at := range wsTokens {
+		for _, rng := range []bool{false, true} {
+			a := &E{op: 'a', atoms: []int{at}, val: w, rng: rng}
+			for _, e := range []*E{a, {op: '!', l: a}, {op: '|', l: a, r: &E{op: 'a', atoms: []int{2}}}} {
+				want := e.tree().table(3)
+				for _, which := range []string{"seqql", "legacy"} {
+					for _, flags := range []string{"", "cs"} {
+						c.caseTruth(which, 3, want, e.render(style{legacy: which == "legacy"}, nil, 0), flags, "ranges")
+					}
+				}
+			}
+		}
+	}
+	// upper-case bounds: ASCII (case-insensitive configuration: `[V0, V0]` = `v0`) and the non-ASCII cased letters (both
+	// configurations, the fake index follows); SeqQL (legacy range bounds are never lower-cased, see the report)
+	for a := 0; a < 3; a++ {
+		for _, rng := range []bool{false, true} {
+			e := &E{op: 'a', atoms: []int{a}, val: fmt.Sprintf("V%d", a), rng: rng}
+			c.caseTruth("seqql", 3, e.tree().table(3), e.render(style{}, nil, 0), "", "ranges")
+		}
+	}
+	for _, d := range casedDecos {
+		e := &E{op: 'a', atoms: []int{1}, deco: d, rng: true}
+		for _, outer := range []*E{e, {op: '&', l: &E{op: 'a', atoms: []int{0}}, r: &E{op: '!', l: e}}} {
+			for _, flags := range []string{"", "cs"} {
+				c.caseTruth("seqql", 3, outer.tree().table(3), outer.render(style{}, nil, 0), flags, "ranges")
+			}
+		}
+	}
+	c.runRanges()
 	// directed: `_exists_:in(V0, V1)` is the disjunction `_exists_:V0 or _exists_:V1` (names with an upper-case letter; the
 	// builtin field is case sensitive whatever the configuration), also negated and inside a conjunction
 	for _, atoms := range [][]int{{0}, {0, 1}, {2, 0, 1}} {
